@@ -380,3 +380,291 @@ Definition wit_insecure_ca : facts :=
 Lemma sound_refuted_without_insecure_ca_check :
   exists f, oracle_laws f = true /\ (forall pick, validate_gen false pick f = VErrs []) /\ apply_gateway f = Err.
 Proof. exists wit_insecure_ca. split; [reflexivity|]. split; [intros []; reflexivity|reflexivity]. Qed.
+
+(* ====================================================================================================
+   EXTENSION 1 — updates
+   ==================================================================================================== *)
+Lemma validated_parts pick f :
+  oracle_laws f = true -> validate pick f = VErrs [] ->
+  f_gate f <> GBad
+  /\ Forall (fun s => touch_members (guess_type s) s = true) (f_schemas f)
+  /\ (ss_ca (f_ss f) && negb (ss_ca_ok (f_ss f)))%bool = false
+  /\ (ss_key (f_ss f) && ss_cert (f_ss f) && negb (ss_pair_ok (f_ss f)))%bool = false
+  /\ tls_config_err (rest_https f) (f_cc f) = false
+  /\ Forall (fun e => ep_client_ok e = true) (f_servers f).
+Proof.
+  intros Hlaws Hv. unfold validate in Hv. apply validate_nil in Hv. destruct Hv as [Hacc Hgate].
+  destruct Hacc as [_ Hsrv Hcc Hss Hfc _ _ _].
+  apply servers_nil in Hsrv. destruct Hsrv as (Hne & Hgood & Hmix).
+  apply serving_nil in Hss. destruct Hss as [Hsp Hsc].
+  apply (clientcfg_nil code_fix) in Hcc. destruct Hcc as (Hcp & _ & Hins).
+  split; [exact Hgate|]. split.
+  { eapply Forall_impl; [|eapply schemas_nil_each; exact Hfc]. intros s [k Hk]. eapply config_nil_touch. exact Hk. }
+  split; [exact Hsc|]. split; [exact Hsp|].
+  unfold oracle_laws in Hlaws. unfold rest_https.
+  destruct (f_servers f) as [|e0 r]; [congruence|].
+  split.
+  - assert (Hl0 : endpoint_laws e0 = true) by (simpl in Hlaws; apply Bool.andb_true_iff in Hlaws; tauto).
+    eapply tls_ok; try eassumption; [exact (Forall_inv Hgood)|]. intros Hsi. apply Hins; [exact Hsi|reflexivity].
+  - rewrite Forall_forall. intros e Hin.
+    rewrite forallb_forall in Hlaws. specialize (Hlaws e Hin).
+    rewrite Forall_forall in Hgood. destruct (Hgood e Hin) as (Hpe & Hpa & Hho).
+    unfold endpoint_laws in Hlaws. rewrite Hpa, Hho in Hlaws. simpl in Hlaws.
+    apply Bool.andb_true_iff in Hlaws. destruct Hlaws as [_ Hl2].
+    destruct (ep_prefix e); [congruence|exact Hl2|exact Hl2].
+Qed.
+
+Lemma sound_update p1 p2 f1 f2 d :
+  oracle_laws f1 = true -> oracle_laws f2 = true ->
+  validate p1 f1 = VErrs [] -> validate p2 f2 = VErrs [] ->
+  apply_gateway_update f1 f2 d = Ok /\ apply_update_ctrl f1 f2 d = Ok
+  /\ apply_update_info f1 f2 d = Some Ok /\ apply_limiter_update f1 f2 = Ok.
+Proof.
+  intros Hl1 Hl2 Hv1 Hv2.
+  destruct (sound p1 f1 Hl1 Hv1) as (Hg1 & _ & _).
+  destruct (validated_parts p1 f1 Hl1 Hv1) as (_ & Ht1 & _ & _ & Htls1 & _).
+  destruct (validated_parts p2 f2 Hl2 Hv2) as (Hgate2 & Ht2 & Hsc2 & Hsp2 & _ & Hcl2).
+  assert (Hu : apply_gateway_update f1 f2 d = Ok).
+  { unfold apply_gateway_update.
+    assert (Hfc : exists m, (if list_eqb schema_eqb (f_schemas f1) (f_schemas f2) then Some []
+                             else match sync_flowcontrols [] (f_schemas f1) with
+                                  | Some m1 => sync_flowcontrols m1 (f_schemas f2) | None => None end) = Some m).
+    { destruct (list_eqb schema_eqb (f_schemas f1) (f_schemas f2)); [eexists; reflexivity|].
+      destruct (sync_some (f_schemas f1) Ht1 []) as [m1 Hm1]. rewrite Hm1. apply sync_some. exact Ht2. }
+    destruct Hfc as [m Hm]. rewrite Hm.
+    replace (negb (d_ss_ca_same d) && ss_ca (f_ss f2) && negb (ss_ca_ok (f_ss f2)))%bool with false
+      by (rewrite <- Bool.andb_assoc, Hsc2, Bool.andb_false_r; reflexivity).
+    replace ((negb (d_ss_key_same d) || negb (d_ss_cert_same d)) && ss_key (f_ss f2) && ss_cert (f_ss f2) && negb (ss_pair_ok (f_ss f2)))%bool
+      with false
+      by (rewrite <- !Bool.andb_assoc; rewrite <- Bool.andb_assoc in Hsp2; rewrite Hsp2, Bool.andb_false_r; reflexivity).
+    rewrite Htls1.
+    replace (existsb _ (f_servers f2)) with false.
+    2:{ symmetry. apply Bool.not_true_is_false. intros Hex. apply existsb_exists in Hex. destruct Hex as (e & Hin & He).
+        rewrite Forall_forall in Hcl2. rewrite (Hcl2 e Hin) in He. simpl in He. rewrite Bool.andb_false_r in He. discriminate. }
+    destruct (f_gate f2); [reflexivity|reflexivity|congruence]. }
+  unfold apply_update_ctrl, apply_update_info. rewrite Hg1. simpl. rewrite Hu. repeat split; reflexivity.
+Qed.
+
+(* ====================================================================================================
+   EXTENSION 2 — remote rate limiter rounds
+   ==================================================================================================== *)
+(* what validation guarantees about one schema, as far as the remote path is concerned *)
+Definition sgood (s : schema) : Prop :=
+  touch_members (guess_type s) s = true /\ (forall k, global_kind s = Some k -> kind_type k = guess_type s).
+
+Lemma config_nil_sgood i s : validate_config i s = VErrs [] -> sgood s.
+Proof.
+  intros H. split; [eapply config_nil_touch; exact H|].
+  revert H. unfold validate_config, global_kind, guess_type.
+  destruct (s_exempt s), (s_mri s) as [m|], (s_tb s) as [[tq tb]|], (s_gmri s) as [g|], (s_gtb s) as [[gq gb]|];
+    cbn; intros H k Hk; inversion Hk; subst; try reflexivity; exfalso; unfold when in H;
+    repeat match type of H with
+           | context [if ?b then _ else _] => destruct b; cbn in H
+           end; discriminate H.
+Qed.
+
+Lemma validated_sgood pick f : validate pick f = VErrs [] -> Forall sgood (f_schemas f).
+Proof.
+  intros Hv. unfold validate in Hv. apply validate_nil in Hv. destruct Hv as [[_ _ _ _ Hfc _ _ _] _].
+  eapply Forall_impl; [|eapply schemas_nil_each; exact Hfc]. intros s [k Hk]. eapply config_nil_sgood. exact Hk.
+Qed.
+
+(* invariant of one flow-control cache of the gateway *)
+Definition cinv (c : gcache) : Prop :=
+  match g_type c with
+  | None => g_cfg c = zero_schema /\ g_remote c = RNone
+  | Some t => t = guess_type (g_cfg c) /\ sgood (g_cfg c)
+              /\ (forall k, g_remote c = RKind k -> global_kind (g_cfg c) = Some k)
+  end.
+Definition ginv (g : gateway) : Prop := Forall (fun p => cinv (snd p)) (gw_caches g).
+
+Lemma fctype_eqb_eq a b : fctype_eqb a b = true -> a = b.
+Proof. destruct a, b; simpl; intros H; try reflexivity; discriminate. Qed.
+Lemma kind_type_inj a b : kind_type a = kind_type b -> a = b.
+Proof. destruct a, b; simpl; intros H; try reflexivity; discriminate. Qed.
+Lemma enable_has_kind s : enable_global s = true -> exists k, global_kind s = Some k.
+Proof.
+  unfold enable_global, global_kind. intros H. apply Bool.andb_true_iff in H. destruct H as [_ H].
+  destruct (s_gmri s), (s_gtb s); simpl in *; try discriminate; eexists; reflexivity.
+Qed.
+
+Lemma cinv_fresh : cinv fresh_cache.
+Proof. unfold cinv, fresh_cache; simpl. split; reflexivity. Qed.
+
+Lemma glocal_sync_inv c s : cinv c -> sgood s -> exists c', glocal_sync all_fixes c s = Some c' /\ cinv c'.
+Proof.
+  intros Hc [Ht Hk]. unfold glocal_sync.
+  destruct (schema_eqb s (g_cfg c)); [exists c; split; [reflexivity|exact Hc]|].
+  rewrite Ht. simpl negb. cbv iota.
+  destruct (g_type c) as [t|] eqn:Hty.
+  - unfold cinv in Hc. rewrite Hty in Hc. destruct Hc as (Hteq & [_ Hkold] & Hrem).
+    destruct (fctype_eqb t (guess_type s)) eqn:Hsame.
+    + apply fctype_eqb_eq in Hsame. eexists; split; [reflexivity|].
+      unfold cinv; simpl. split; [exact Hsame|]. split; [split; assumption|].
+      intros k Hr. destruct (enable_global s) eqn:Hen; [|discriminate].
+      destruct (enable_has_kind s Hen) as [k' Hk'].
+      specialize (Hrem k Hr). apply Hkold in Hrem. apply Hk in Hk' as Hk''.
+      assert (k' = k) by (apply kind_type_inj; congruence). subst k'. exact Hk'.
+    + eexists; split; [reflexivity|]. unfold cinv; simpl. split; [reflexivity|]. split; [split; assumption|].
+      intros k Hr; discriminate.
+  - eexists; split; [reflexivity|]. unfold cinv; simpl. split; [reflexivity|]. split; [split; assumption|].
+    intros k Hr; discriminate.
+Qed.
+
+Lemma alookup_in {A} (P : A -> Prop) n (m : list (Z * A)) c :
+  Forall (fun p => P (snd p)) m -> alookup n m = Some c -> P c.
+Proof.
+  induction m as [|[k c0] r IH]; simpl; intros HF H; [discriminate|].
+  inversion HF; subst. destruct (k =? n); [inversion H; subst; assumption|apply IH; assumption].
+Qed.
+Lemma astore_forall {A} (P : A -> Prop) n c (m : list (Z * A)) :
+  Forall (fun p => P (snd p)) m -> P c -> Forall (fun p => P (snd p)) (astore n c m).
+Proof.
+  induction m as [|[k c0] r IH]; simpl; intros HF Hc; [constructor; [exact Hc|constructor]|].
+  inversion HF; subst. destruct (k =? n); constructor; simpl; try assumption. apply IH; assumption.
+Qed.
+
+Lemma gsync_each_inv l : Forall sgood l -> forall m, Forall (fun p => cinv (snd p)) m ->
+  exists m', gsync_each all_fixes m l = Some m' /\ Forall (fun p => cinv (snd p)) m'.
+Proof.
+  induction 1 as [|s r Hs _ IH]; intros m Hm; simpl; [exists m; split; [reflexivity|exact Hm]|].
+  assert (Hc : cinv (match alookup (s_name s) m with Some c => c | None => fresh_cache end)).
+  { destruct (alookup (s_name s) m) as [c|] eqn:Hl; [eapply (alookup_in cinv); eassumption|apply cinv_fresh]. }
+  destruct (glocal_sync_inv _ s Hc Hs) as (c' & Hg & Hc'). rewrite Hg.
+  apply IH. apply astore_forall; assumption.
+Qed.
+
+Lemma filter_forall {A} (P : A -> Prop) f (l : list A) : Forall P l -> Forall P (filter f l).
+Proof. induction 1; simpl; [constructor|]. destruct (f x); [constructor; assumption|assumption]. Qed.
+
+Lemma gsync_inv g l : ginv g -> Forall sgood l -> exists g', gsync all_fixes g l = Some g' /\ ginv g'.
+Proof.
+  intros Hg Hl. unfold gsync. destruct (list_eqb schema_eqb (gw_spec g) l); [exists g; split; [reflexivity|exact Hg]|].
+  destruct (gsync_each_inv l Hl _ Hg) as (m' & Hm & Hi). rewrite Hm.
+  eexists; split; [reflexivity|]. unfold ginv; simpl. apply filter_forall. exact Hi.
+Qed.
+
+Lemma zero_strategy : s_strategy zero_schema = 0.
+Proof. reflexivity. Qed.
+
+Lemma count_pass_inv g : ginv g -> ginv (count_pass g).
+Proof.
+  unfold ginv, count_pass; simpl. intros H. rewrite Forall_forall in *. intros p Hin.
+  apply in_map_iff in Hin. destruct Hin as ([n c] & Hp & Hin). specialize (H _ Hin). simpl in *.
+  destruct (s_strategy (g_cfg c) =? 3) eqn:Hs3; subst p; simpl; [|exact H].
+  unfold cinv in *; simpl. destruct (g_type c) as [t|].
+  - destruct H as (Ht & Hg & Hr). split; [exact Ht|]. split; [exact Hg|].
+    intros k. destruct (global_kind (g_cfg c)) as [k0|] eqn:Hk0.
+    + intros E; inversion E; reflexivity.
+    + intros E. destruct (g_remote c); try discriminate. apply Hr in E. congruence.
+  - destruct H as [Hz Hr]. rewrite Hz in Hs3. discriminate.
+Qed.
+
+Lemma sanitize_kind_sound c k :
+  sanitize_kind (optk_eqb (item_kind all_fixes c) (Some DMri) || optk_eqb (global_kind (g_cfg c)) (Some DMri))
+                (optk_eqb (item_kind all_fixes c) (Some DTb) || optk_eqb (global_kind (g_cfg c)) (Some DTb)) (g_cfg c) = Some k ->
+  global_kind (g_cfg c) = Some k.
+Proof.
+  unfold sanitize_kind, global_kind.
+  destruct (s_gmri (g_cfg c)) as [g|], (s_gtb (g_cfg c)) as [t|]; simpl;
+    repeat rewrite ?Bool.orb_true_r, ?Bool.andb_true_r, ?Bool.andb_false_r; simpl; intros H; try (inversion H; reflexivity); try discriminate.
+Qed.
+
+Lemma alloc_pass_inv inst l g ls : ginv g ->
+  exists g' ls', alloc_pass all_fixes inst true l g ls = (ROk, g', ls') /\ ginv g'.
+Proof.
+  intros Hg. unfold alloc_pass. cbv zeta. cbn [fx_no_limiter fx_stale_status all_fixes negb andb].
+  assert (Hmis : existsb (fun p => match item_kind all_fixes (snd p) with
+                                   | Some k => negb (optk_eqb (Some k) (global_kind (g_cfg (snd p))))
+                                   | None => false end)
+                         (filter (fun p => selected (snd p)) (gw_caches g)) = false).
+  { apply Bool.not_true_is_false. intros Hex. apply existsb_exists in Hex. destruct Hex as ([n c] & Hin & He).
+    apply filter_In in Hin. destruct Hin as [Hin Hsel]. unfold ginv in Hg. rewrite Forall_forall in Hg.
+    specialize (Hg _ Hin). simpl in *. unfold item_kind in He. destruct (g_remote c) as [| |k] eqn:Hr; try discriminate.
+    unfold cinv in Hg. destruct (g_type c) as [t|].
+    - destruct Hg as (_ & _ & Hk). rewrite (Hk k Hr) in He. destruct k; discriminate.
+    - destruct Hg as [_ Hn]. congruence. }
+  rewrite Hmis. eexists; eexists; split; [reflexivity|].
+  unfold ginv in *; simpl. rewrite Forall_forall in *. intros p Hin.
+  apply in_map_iff in Hin. destruct Hin as ([n c] & Hp & Hin). specialize (Hg _ Hin). simpl in *.
+  destruct (selected c) eqn:Hsel; subst p; simpl; [|exact Hg].
+  unfold cinv in *; simpl. destruct (g_type c) as [t|].
+  - destruct Hg as (Ht & Hgd & Hr). split; [exact Ht|]. split; [exact Hgd|].
+    intros k. match goal with |- context [sanitize_kind ?a ?b ?s] => destruct (sanitize_kind a b s) as [k0|] eqn:Hsk end.
+    + intros E; inversion E; subst. eapply sanitize_kind_sound. exact Hsk.
+    + intros E. destruct (g_remote c) as [| |k1]; try discriminate. inversion E; subst. apply Hr. reflexivity.
+  - destruct Hg as [Hz _]. unfold selected in Hsel. rewrite Hz in Hsel. discriminate.
+Qed.
+
+Lemma round_inv inst l g ls : ginv g -> Forall sgood l ->
+  exists rr g' ls', round all_fixes inst true l (Some g) ls = (rr, Some g', ls') /\ round_ok rr = true /\ ginv g'.
+Proof.
+  intros Hg Hl. unfold round. destruct (gsync_inv g l Hg Hl) as (g1 & Hs & H1). rewrite Hs.
+  destruct (alloc_pass_inv inst l (count_pass g1) ls (count_pass_inv _ H1)) as (g3 & ls' & Ha & H3). rewrite Ha.
+  eexists; eexists; eexists; split; [reflexivity|]. split; [reflexivity|exact H3].
+Qed.
+
+Lemma ginv_fresh : ginv fresh_gateway.
+Proof. constructor. Qed.
+
+Lemma rounds_tail_ok vs : Forall (Forall sgood) vs -> forall g ls, ginv g ->
+  Forall (fun r => round_ok r = true) (rounds_tail all_fixes true vs (Some g) ls).
+Proof.
+  induction 1 as [|l r Hl Hr IH]; intros g ls Hg; [constructor|].
+  destruct r as [|l2 r2].
+  - cbn [rounds_tail].
+    destruct (round_inv 2 l fresh_gateway ls ginv_fresh Hl) as (rb & gb & ls1 & Hb & Hokb & _). rewrite Hb.
+    destruct (round_inv 1 l g ls1 Hg Hl) as (ra & ga & ls2 & Ha & Hoka & _). rewrite Ha.
+    constructor; [exact Hokb|constructor; [exact Hoka|constructor]].
+  - change (rounds_tail all_fixes true (l :: l2 :: r2) (Some g) ls)
+      with (let '(rr, g', ls') := round all_fixes 1 true l (Some g) ls in rr :: rounds_tail all_fixes true (l2 :: r2) g' ls').
+    destruct (round_inv 1 l g ls Hg Hl) as (rr & g' & ls' & Hrd & Hok & Hg'). rewrite Hrd.
+    constructor; [exact Hok|apply IH; exact Hg'].
+Qed.
+
+Lemma remote_rounds_ok vs : Forall (Forall sgood) vs ->
+  Forall (fun r => round_ok r = true) (remote_rounds all_fixes true vs).
+Proof.
+  intros Hvs. unfold remote_rounds. destruct vs as [|l r]; [constructor|].
+  inversion Hvs as [|? ? Hl Hr]; subst.
+  destruct (round_inv 1 l fresh_gateway [] ginv_fresh Hl) as (rr & g' & ls' & Hrd & Hok & Hg'). rewrite Hrd.
+  constructor; [exact Hok|apply rounds_tail_ok; assumption].
+Qed.
+
+Lemma sound_remote fs :
+  Forall (fun f => exists pick, validate pick f = VErrs []) fs ->
+  Forall (fun r => round_ok r = true) (remote_rounds all_fixes true (map f_schemas fs)).
+Proof.
+  intros H. apply remote_rounds_ok. induction H as [|f r [pick Hv] _ IH]; simpl; constructor; [|exact IH].
+  eapply validated_sgood. exact Hv.
+Qed.
+
+(* ---------- each of the three repairs is needed (pairs of validated flow-control specs) ---------- *)
+Definition sch (n st : Z) (mri : option Z) (tb : option (Z * Z)) (gmri : option Z) (gtb : option (Z * Z)) : schema :=
+  {| s_name := n; s_strategy := st; s_exempt := false; s_mri := mri; s_tb := tb; s_gmri := gmri; s_gtb := gtb |}.
+Definition spec_ok (l : list schema) : Prop := fst (validate_schemas_from 0 [] l) = VErrs [].
+Definition some_round_fails (fx : fixes) (vs : list (list schema)) : bool :=
+  existsb (fun r => negb (round_ok r)) (remote_rounds fx true vs).
+
+(* globalAllocate max-inflight -> token bucket *)
+Definition wit_type_change : list (list schema) :=
+  [[sch 1 2 (Some 10) None (Some 100) None]; [sch 1 2 None (Some (5, 10)) None (Some (50, 100))]].
+(* globalCount without a global member -> globalAllocate with one *)
+Definition wit_no_limiter : list (list schema) :=
+  [[sch 1 3 (Some 10) None None None]; [sch 1 2 (Some 10) None (Some 100) None]].
+
+Lemma remote_refuted_without_stale_remote_fix :
+  Forall spec_ok wit_type_change
+  /\ some_round_fails {| fx_stale_remote := false; fx_stale_status := true; fx_no_limiter := true |} wit_type_change = true.
+Proof. split; [constructor; [reflexivity|constructor; [reflexivity|constructor]]|reflexivity]. Qed.
+(* the limiter-side repair: replica B's first round on the new version panics in the limiter server, because the
+   condition gateway A stored for the previous version carries a status of the previous type *)
+Lemma remote_refuted_without_stale_status_fix :
+  Forall spec_ok wit_type_change
+  /\ existsb (fun r => match rr_alloc r with RPanic => true | _ => false end)
+       (remote_rounds {| fx_stale_remote := true; fx_stale_status := false; fx_no_limiter := true |} true wit_type_change) = true.
+Proof. split; [constructor; [reflexivity|constructor; [reflexivity|constructor]]|reflexivity]. Qed.
+Lemma remote_refuted_without_no_limiter_fix :
+  Forall spec_ok wit_no_limiter
+  /\ some_round_fails {| fx_stale_remote := true; fx_stale_status := true; fx_no_limiter := false |} wit_no_limiter = true.
+Proof. split; [constructor; [reflexivity|constructor; [reflexivity|constructor]]|reflexivity]. Qed.
